@@ -24,6 +24,7 @@ import (
 	"syscall"
 	"time"
 
+	clog "github.com/containerd/log"
 	"verif/harness/hx"
 )
 
@@ -63,6 +64,8 @@ type Case struct {
 	Fsize   int64   `json:"fsize,omitempty"`
 	Workers int     `json:"workers,omitempty"` // merge: worker count (Len = merge buffer size)
 	Raw     string  `json:"raw,omitempty"`     // json: the TOC JSON text
+	Probe   *Rep    `json:"probe,omitempty"`   // remote: reply script for the refresh/redirect probe
+	Get     *Rep    `json:"get,omitempty"`     // remote: reply script for ranged blob GETs
 	Hits    []bool  `json:"hits,omitempty"`
 }
 
@@ -81,6 +84,8 @@ func okClass(c string) bool { return c == "ok" || c == "error" }
 // ---- child side ----
 
 func childMain() {
+	// the implementation's log lines would fill the captured head of stderr, where a crash report is looked for
+	clog.L.Logger.SetOutput(io.Discard)
 	debug.SetMaxStack(48 << 20)
 	// address-space limit: a hostile size must end in an error, not in the OOM killer taking the harness down
 	lim := syscall.Rlimit{Cur: 6 << 30, Max: 6 << 30}
@@ -99,10 +104,11 @@ func childMain() {
 			o := safeExec(c)
 			// goroutines started by the implementation (prefetch) must have ended - or crashed the process - before this
 			// case is answered; otherwise the next case gets a fresh child
-			for i := 0; i < 100 && runtime.NumGoroutine() > base; i++ {
+			prefetching := c.Kind == "tree" || c.Kind == "json" || c.Kind == "dbtree" || c.Kind == "dbjson"
+			for i := 0; prefetching && i < 100 && runtime.NumGoroutine() > base; i++ {
 				time.Sleep(5 * time.Millisecond)
 			}
-			if runtime.NumGoroutine() > base {
+			if prefetching && runtime.NumGoroutine() > base {
 				o.Restart = true
 			}
 			b, _ := json.Marshal(o)
@@ -143,6 +149,10 @@ func execCase(c Case) Obs {
 		return execBuild(c)
 	case "json":
 		return execJSON(c)
+	case "remote":
+		return execRemote(c)
+	case "buildk":
+		return execBuildK(c)
 	}
 	if f, ok := cfg.Exec[c.Kind]; ok {
 		return f(c)
